@@ -504,6 +504,73 @@ Proof.
   destruct le, hh, sz, ro, nc, dl; vm_compute; discriminate.
 Qed.
 
+Lemma cache_fresh_repaired_aux H ccinfo_of cc_ok pol tps :
+  H_inj H -> (forall a b, ccinfo_of a = ccinfo_of b -> a = b) -> 0 < tps ->
+  p_le pol = false \/ p_del_rewrite pol = true -> p_reuse_out pol = false -> p_nohead_cache pol = false ->
+  p_head_hash pol = true -> p_size_chk pol = true ->
+  forall h, all_fresh cc_ok (exec H ccinfo_of cc_ok pol tps (init tps) h) = true.
+Proof. intros Hi Hv Tp A B C D E h. apply fresh_repaired; auto. Qed.
+
+(* ---------- the machine only looks at ccinfo_of on the worlds of the history ---------- *)
+Definition step_world_agree (f g : Z -> Z) (x : step) : Prop :=
+  match x with
+  | Advance _ => True
+  | Run i _ | Interrupt i _ | CodeOnly i => f (i_cc i) = g (i_cc i)
+  end.
+
+Lemma mk_text_ext H f g pol i : f (i_cc i) = g (i_cc i) -> mk_text H f pol i = mk_text H g pol i.
+Proof. unfold mk_text. intros ->. reflexivity. Qed.
+Lemma compile_code_ext H f g pol tps s i :
+  f (i_cc i) = g (i_cc i) -> compile_code H f pol tps s i = compile_code H g pol tps s i.
+Proof. intros E. unfold compile_code. rewrite (mk_text_ext H f g pol i E). reflexivity. Qed.
+Lemma do_step_ext H f g cc_ok pol tps s x :
+  step_world_agree f g x -> do_step H f cc_ok pol tps s x = do_step H g cc_ok pol tps s x.
+Proof.
+  destruct x as [d|i dur|i dur|i]; simpl; intros E; auto; unfold do_run;
+    rewrite (compile_code_ext H f g pol tps s i E); reflexivity.
+Qed.
+Lemma exec_ext H f g cc_ok pol tps h : forall s,
+  Forall (step_world_agree f g) h -> exec H f cc_ok pol tps s h = exec H g cc_ok pol tps s h.
+Proof.
+  induction h as [|x r IH]; intros s F; simpl; auto. inversion F; subst.
+  rewrite (do_step_ext H f g cc_ok pol tps s x); auto.
+  destruct (do_step H g cc_ok pol tps s x) as [s' o]. rewrite (IH s'); auto.
+Qed.
+
+(* histories whose worlds are all below a bound *)
+Definition step_world_below (n : Z) (x : step) : Prop :=
+  match x with
+  | Advance _ => True
+  | Run i _ | Interrupt i _ | CodeOnly i => 0 <= i_cc i < n
+  end.
+
+(* with the cincdir headers in the heading hash, every history that edits only the compiler and such
+   headers (worlds below 100) is fresh under a sufficient policy *)
+Theorem fresh_with_hashed_headers H cc_ok pol tps h :
+  H_inj H -> 0 < tps ->
+  p_le pol = false \/ p_del_rewrite pol = true -> p_reuse_out pol = false -> p_nohead_cache pol = false ->
+  p_head_hash pol = true -> p_size_chk pol = true ->
+  Forall (step_world_below 100) h ->
+  all_fresh cc_ok (exec H (vis true) cc_ok pol tps (init tps) h) = true.
+Proof.
+  intros Hi Tp A B C D E F.
+  rewrite (exec_ext H (vis true) wid cc_ok pol tps h (init tps)).
+  - apply (cache_fresh_repaired_aux H wid cc_ok pol tps); auto.
+  - eapply Forall_impl; [|exact F]. intros x W. destruct x; simpl in *; auto; unfold vis, wid; apply Z.mod_small; lia.
+Qed.
+
+(* without them a cincdir-header edit (world 0 -> 10) is served stale, for every policy of the family *)
+Definition w_cincdir_header_edit : list step := [Run inv0 11; Run (mkInv 0 None 0 0 10 false false) 1].
+Theorem refuted_without_hashed_headers pol :
+  all_fresh all_ok (exec H_id (vis false) all_ok pol 10 (init 10) w_cincdir_header_edit) = false.
+Proof. destruct pol as [le hh sz ro nc dl]. destruct le, hh, sz, ro, nc, dl; vm_compute; reflexivity. Qed.
+(* and a header reached only through --cflags -I (world 0 -> 100) is served stale whether or not the
+   cincdir headers are hashed, for every policy of the family *)
+Definition w_I_header_edit : list step := [Run inv0 11; Run (mkInv 0 None 0 0 100 false false) 1].
+Theorem refuted_I_header_edit hashed pol :
+  all_fresh all_ok (exec H_id (vis hashed) all_ok pol 10 (init 10) w_I_header_edit) = false.
+Proof. destruct pol as [le hh sz ro nc dl]. destruct hashed, le, hh, sz, ro, nc, dl; vm_compute; reflexivity. Qed.
+
 (* the repaired policy satisfies the full-strength statement *)
 Theorem cache_fresh_repaired pol :
   p_le pol = false \/ p_del_rewrite pol = true -> p_reuse_out pol = false -> p_nohead_cache pol = false ->
